@@ -94,3 +94,44 @@ Qed.
 Lemma run_one_reindex t cfg budget r b g0 : idx_agree (ri_file r) (ri_smatches r) (ri_lmatches r) ->
   run_one t cfg budget (with_lazy r b) g0 = run_one t cfg budget (with_lazy (normalize_run r) b) g0.
 Proof. intros H. destruct b; [apply run_one_reindex_lazy|apply run_one_reindex_strict; exact H]. Qed.
+
+(* ---------------- in the normalized file the two index spaces coincide by construction ---------------- *)
+From TSG Require Import Proofs.Checker.
+Notation diag := (fun c : N * N => fst c = snd c).
+Lemma Forall_flat_map_in {A B} (P : B -> Prop) (f : A -> list B) l : (forall x, In x l -> Forall P (f x)) -> Forall P (flat_map f l).
+Proof. intros H. apply Forall_flat_map. apply Forall_forall. exact H. Qed.
+Lemma expr_caps_norm e : Forall diag (expr_caps (norm_expr e)).
+Proof.
+  induction e using expr_ind'; cbn [norm_expr expr_caps]; try constructor; try reflexivity; try constructor; try (apply Forall_app; split; assumption); try assumption.
+  - apply Forall_flat_map_in. intros x Hx. apply in_map_iff in Hx. destruct Hx as (y & <- & Hy). rewrite Forall_forall in H. apply H. exact Hy.
+  - apply Forall_flat_map_in. intros x Hx. apply in_map_iff in Hx. destruct Hx as (y & <- & Hy). rewrite Forall_forall in H. apply H. exact Hy.
+  - apply Forall_flat_map_in. intros x Hx. apply in_map_iff in Hx. destruct Hx as (y & <- & Hy). rewrite Forall_forall in H. apply H. exact Hy.
+Qed.
+Lemma var_caps_norm v : Forall diag (var_caps (norm_var v)).
+Proof. destruct v; cbn [norm_var var_caps]; [constructor|apply expr_caps_norm]. Qed.
+Lemma attrs_caps_norm attrs : Forall diag (flat_map attr_caps (map norm_attr attrs)).
+Proof. apply Forall_flat_map_in. intros x Hx. apply in_map_iff in Hx. destruct Hx as ([n e] & <- & _). apply expr_caps_norm. Qed.
+Lemma exprs_caps_norm es : Forall diag (flat_map expr_caps (map norm_expr es)).
+Proof. apply Forall_flat_map_in. intros x Hx. apply in_map_iff in Hx. destruct Hx as (e & <- & _). apply expr_caps_norm. Qed.
+Lemma conds_caps_norm cs : Forall diag (flat_map cond_caps (map norm_cond cs)).
+Proof. apply Forall_flat_map_in. intros x Hx. apply in_map_iff in Hx. destruct Hx as ([e l|e l|e l] & <- & _); apply expr_caps_norm. Qed.
+Lemma stmts_caps_norm body : Forall (fun s => Forall diag (stmt_caps (norm_stmt s))) body -> Forall diag (flat_map stmt_caps (map norm_stmt body)).
+Proof. intros H. apply Forall_flat_map_in. intros x Hx. apply in_map_iff in Hx. destruct Hx as (s & <- & Hs). rewrite Forall_forall in H. apply H. exact Hs. Qed.
+Lemma stmt_caps_norm s : Forall diag (stmt_caps (norm_stmt s)).
+Proof.
+  induction s using stmt_ind'; cbn [norm_stmt stmt_caps];
+    repeat (apply Forall_app; split); try apply var_caps_norm; try apply expr_caps_norm; try apply attrs_caps_norm; try apply exprs_caps_norm.
+  - apply Forall_flat_map_in. intros x Hx. apply in_map_iff in Hx. destruct Hx as (arm & <- & Ha). cbn [fst snd]. apply stmts_caps_norm.
+    rewrite Forall_forall in H. apply (H arm Ha).
+  - apply Forall_flat_map_in. intros x Hx. apply in_map_iff in Hx. destruct Hx as (arm & <- & Ha). cbn [fst snd]. apply Forall_app. split; [apply conds_caps_norm|].
+    apply stmts_caps_norm. rewrite Forall_forall in H. apply (H arm Ha).
+  - apply stmts_caps_norm. exact H.
+Qed.
+Theorem normalize_file_caps_coincide fl st : In st (f_stanzas (normalize_file fl)) -> Forall diag (stanza_caps (normalize_file fl) st).
+Proof.
+  intros Hst. cbn [normalize_file f_stanzas] in Hst. apply in_map_iff in Hst. destruct Hst as (st0 & <- & _).
+  unfold stanza_caps. cbn [norm_stanza st_full_file_idx st_full_stanza_idx st_stmts]. constructor; [reflexivity|]. apply Forall_app. split.
+  - apply stmts_caps_norm. apply Forall_forall. intros s _. apply stmt_caps_norm.
+  - unfold shorthand_caps. cbn [normalize_file f_shorthands]. apply Forall_flat_map_in. intros sh Hsh. apply in_map_iff in Hsh. destruct Hsh as (sh0 & <- & _).
+    cbn [norm_shorthand sh_attrs]. apply attrs_caps_norm.
+Qed.
